@@ -1412,12 +1412,254 @@ def correspond(run: Run) -> None:
                           'ctxseed': 7})
     state_correspond(run, sample[:run.scale(45, 350)])
     history_correspond(run)
+    seq_correspond(run)
     chunk = 400
     for i in range(0, len(cases), chunk):
         compare(run, cases[i:i + chunk])
         if i % 2000 == 0:
             run.log(f'{i + chunk}/{len(cases)} cases, {run.stats.evaluations} evaluations, '
                     f'{len(run.disagreements)} disagreements')
+
+
+# ===================================================================== phase 5: sequence operators ',' and '!'
+def spolish(s) -> list[str]:
+    k = s[0]
+    if k == 'b':
+        return ['b'] + polish(s[1])
+    if k in ('cm', 'bg'):
+        return [k] + spolish(s[1]) + spolish(s[2])
+    if k in ('ssl', 'sf', 'sn'):
+        return [k] + spolish(s[1]) + polish(s[2])
+    raise ValueError(s)
+
+
+def srender(s) -> str:
+    """concrete syntax: ',' always parenthesised; '!' is left-associative and binds weaker than '/' and stronger
+    than '|': a '!' right operand of '!' is parenthesised; `(l)/r` parenthesises its left operand"""
+    k = s[0]
+    if k == 'b':
+        return render(s[1])
+    if k == 'cm':
+        return f'({srender(s[1])}, {srender(s[2])})'
+    if k == 'bg':
+        r = srender(s[2])
+        return f'{srender(s[1])} ! ' + (f'({r})' if s[2][0] == 'bg' else r)
+    if k in ('ssl', 'sn'):
+        # a bare step (or a step with predicates) as left operand is written without parentheses: the left
+        # operand token is then the XPathAxis / '[' token itself (`ancestor::*/position()`)
+        l = s[1]
+        if l[0] == 'b' and (l[1][0] == 's' or (l[1][0] == 'p' and inner_is_step(l[1]))):
+            return f'{render(l[1])}/{render(s[2])}'
+        return f'({srender(l)})/{render(s[2])}'
+    if k == 'sf':
+        return f'({srender(s[1])})[{render(s[2])}]'
+    raise ValueError(s)
+
+
+def sops(s, acc=None) -> list:
+    acc = [] if acc is None else acc
+    if s[0] != 'b':
+        acc.append(s[0])
+        sops(s[1], acc)
+        if s[0] not in ('ssl', 'sf', 'sn'):
+            sops(s[2], acc)
+    return acc
+
+
+def gen_rel(rng, n):
+    e = gen_stepish(rng, 1)
+    for _ in range(n - 1):
+        e = [rng.choice(['sl', 'sl', 'ds']), e, gen_stepish(rng, 1)]
+    return e
+
+
+def gen_sbase(rng, nodes_only):
+    if not nodes_only and rng.random() < 0.55:
+        return ['b', gen_num(rng)]
+    r = rng.random()
+    if r < 0.3:      # a bare step (reverse axes: the `select_with_focus` of an XPathAxis token)
+        ax = rng.choice(['ancestor', 'ancestor-or-self', 'preceding', 'preceding-sibling', 'child', 'descendant', 'following'])
+        return ['b', ['s', ax, gen_test(rng, ax), False]]
+    e = gen_path(rng, rng.choice([1, 1, 2]), depth=1)
+    if r < 0.4:
+        e = gen_union(rng, 1)
+    if e[0] in ('r0', 'un'):
+        e = ['g', e]
+    return ['b', e]
+
+
+def gen_sexpr(rng, depth, nodes_only=False, top=False):
+    r = rng.random()
+    if not top and (depth <= 0 or r < 0.3):
+        return gen_sbase(rng, nodes_only)
+    if r < 0.55:
+        return ['cm', gen_sexpr(rng, depth - 1, nodes_only), gen_sexpr(rng, depth - 1, nodes_only)]
+    if r < 0.82:
+        return ['bg', gen_sexpr(rng, depth - 1, True), gen_sexpr(rng, depth - 1, nodes_only)]
+    if r < 0.92:
+        return ['ssl', gen_sexpr(rng, depth - 1, True), gen_rel(rng, rng.choice([1, 1, 2]))]
+    if r < 0.97 or nodes_only:
+        return ['sf', gen_sexpr(rng, depth - 1, True), gen_pred(rng, 1)]
+    return ['sn', gen_sexpr(rng, depth - 1, True), gen_num(rng)]
+
+
+_AE = ['s', 'ancestor-or-self', 'any', False]
+_DE = ['s', 'descendant', 'any', False]
+_CH = ['s', 'child', 'any', True]
+SEQ_CORPUS = [
+    ['bg', ['b', _AE], ['b', ['pos']]],                                  # former F01r: ancestor-or-self::* ! position()
+    ['bg', ['b', ['g', _AE]], ['b', ['pos']]],                           # (ancestor-or-self::*) ! position()
+    ['bg', ['b', _AE], ['b', ['last']]],
+    ['cm', ['b', ['dr', _CH]], ['b', ['dr', _CH]]],                      # (//*, //*): duplicates stay
+    ['cm', ['b', _DE], ['b', ['c']]],                                    # (descendant::*, .): not in document order
+    ['bg', ['b', _DE], ['b', ['u']]],                                    # descendant::* ! ..: parents repeated, unsorted
+    ['ssl', ['bg', ['b', _DE], ['b', ['u']]], _CH],                      # (descendant::* ! ..)/*
+    ['ssl', ['cm', ['b', _DE], ['b', ['c']]], ['s', 'self', 'node', False]],   # (descendant::*, .)/self::node()
+    ['bg', ['cm', ['b', _CH], ['b', _CH]], ['b', ['pos']]],              # (*, *) ! position()
+    ['bg', ['b', _CH], ['cm', ['b', ['c']], ['b', ['count', _CH]]]],     # * ! (., count(*))
+    ['bg', ['bg', ['b', _CH], ['b', _CH]], ['b', ['last']]],             # * ! * ! last()
+    ['bg', ['b', _CH], ['bg', ['b', _CH], ['b', ['last']]]],             # * ! (* ! last())
+    ['sn', ['b', _AE], ['pos']],                                         # ancestor-or-self::*/position()  (former F01r)
+    ['sn', ['b', ['p', _AE, ['cmp', 'gt', ['pos'], ['n', 1]]]], ['pos']],   # ancestor-or-self::*[position() > 1]/position()
+    ['sn', ['cm', ['b', ['s', 'preceding', 'any', False]], ['b', ['c']]], ['last']],   # (preceding::*, .)/last()
+    ['ssl', ['b', ['s', 'ancestor', 'any', False]], _CH],                # ancestor::*/*
+    ['sf', ['cm', ['b', _DE], ['b', _DE]], ['last']],                    # (descendant::*, descendant::*)[last()]
+    ['sf', ['bg', ['b', _DE], ['b', ['u']]], ['n', 2]],                  # (descendant::* ! ..)[2]
+    ['sf', ['cm', ['b', _AE], ['b', _AE]], ['cmp', 'gt', ['pos'], ['n', 1]]],   # (anc-or-self::*, anc-or-self::*)[position() > 1]
+    ['sf', ['sf', ['cm', ['b', _DE], ['b', ['c']]], ['cmp', 'gt', ['pos'], ['n', 1]]], ['n', 1]],   # ((descendant::*, .)[position() > 1])[1]
+]
+
+
+def seq_str(it: 'ImplTree', items) -> str:
+    out = []
+    for x in items:
+        if isinstance(x, it.xn.XPathNode):
+            i = it.b.keyidx.get(it.b.key_of(x, it.xn))
+            if i is None:
+                return f'UNKNOWN-NODE:{x!r}'[:60]
+            out.append(f'n{i}')
+        elif isinstance(x, int) and not isinstance(x, bool):
+            out.append(f'#{x}')
+        else:
+            return f'ATOMIC:{x!r}'[:60]
+    return 'Q' + ','.join(out)
+
+
+def seq_select(it: 'ImplTree', tok, i: int, evaluate=False) -> str:
+    try:
+        ctx = it.XPathContext(it.node_tree, namespaces=dict(it.b.ns), fragment=it.frag, item=it.ctxnode[i])
+        if evaluate:
+            ev = tok.evaluate(ctx)
+            return seq_str(it, ev if isinstance(ev, list) else [ev])
+        return seq_str(it, list(tok.select(ctx)))
+    except Exception as e:
+        return err_code(e)
+
+
+def seq_compare(run: Run, cases: list[dict]) -> None:
+    """model = implementation = specification for the sequence operators (SE= request of the driver)"""
+    st = run.stats
+    builts, lines = [], []
+    for c in cases:
+        b = Built(c['tree'], c['pre'], c['post'], c['lib'], c['mode'], c.get('ns'))
+        builts.append(b)
+        if not c.get('ctx'):
+            import random
+            allidx = [i for i in range(len(b.recs)) if not (b.mode == 'dummy' and i == 0)]
+            rng = random.Random(c.get('ctxseed', 0))
+            elems = [i for i in allidx if b.recs[i][0] in 'ED']
+            others = [i for i in allidx if b.recs[i][0] not in 'ED']
+            c['ctx'] = allidx if c.get('ctxseed') == -1 else \
+                sorted(set(rng.sample(elems, min(len(elems), 7)) + rng.sample(others, min(len(others), 2))))
+        lines.append(f"M={c['mode']} T={b.tree_field()} X={'~'.join(b.xtoks)} SE={'~'.join(spolish(c['sexpr']))} "
+                     f"C={','.join(str(i) for i in c['ctx'])}")
+    answers = drive(run, lines)
+    P = parsers()
+    for c, b, ans in zip(cases, builts, answers):
+        path = srender(c['sexpr'])
+        cj = {'tree': c['tree'], 'pre': c['pre'], 'post': c['post'], 'sexpr': c['sexpr'], 'lib': c['lib'], 'mode': c['mode'],
+              'ns': c.get('ns'), 'xpath': path}
+        if not ans.startswith('wf='):
+            run.disagree(Disagreement(cj, 'driver:' + ans, what='protocol'))
+            continue
+        head, _, rfield = ans.partition(' R=')
+        flds = dict(x.split('=') for x in head.split(' '))
+        if flds['wf'] != '1' or flds['fl'] != '1' or flds['sty'] == 'none':
+            run.disagree(Disagreement(cj, 'harness:' + head, what='wf-or-typing-of-generated-input'))
+            continue
+        ops = sops(c['sexpr'])
+        has_bang = 'bg' in ops
+        for o in set(ops):
+            st.count('seq:op:' + {'cm': 'comma', 'bg': 'bang', 'ssl': 'step-on-sequence', 'sf': 'predicate-on-sequence',
+                                  'sn': 'number-valued-step-on-sequence'}[o])
+        st.count('seq:typed:' + flds['sty'])
+        if any(x in path for x in ('ancestor', 'preceding')):
+            st.count('seq:with-reverse-axis-step')
+        try:
+            it = ImplTree(b)
+            tkey = ('SEQ', path, tuple(sorted(b.ns.items())))
+            if tkey not in TOK_CACHE:
+                TOK_CACHE[tkey] = {v: cls(namespaces=dict(b.ns)).parse(path) for v, cls in P.items()
+                                   if v in ('3.0', '3.1') or (v == '2.0' and not has_bang)}
+            toks = TOK_CACHE[tkey]
+        except Exception as e:
+            run.disagree(Disagreement(cj, err_code(e), what='parse-or-tree-build', site='parser'))
+            continue
+        for item in rfield.split('|'):
+            i, mv, sv = item.split(':')
+            i = int(i)
+            cji = dict(cj, ctx=i)
+            impl = seq_select(it, toks['3.0'], i)
+            body_ = sv[1:].split(',') if sv.startswith('Q') and len(sv) > 1 else []
+            nodes = [int(x[1:]) for x in body_ if x.startswith('n')]
+            st.case(['seq', c['lib'], c['mode'], path, b.tree_field(), i], nontrivial=len(body_) > 0)
+            st.count('seq:items=' + ('0' if not body_ else '1' if len(body_) == 1 else '2-4' if len(body_) < 5 else '5+'))
+            if len(set(nodes)) < len(nodes):
+                st.count('seq:result-with-duplicate-nodes')
+            if nodes != sorted(nodes):
+                st.count('seq:result-not-in-document-order')
+            if any(x.startswith('#') for x in body_):
+                st.count('seq:result-with-numbers')
+            if impl != mv or impl != sv:
+                if impl != sv:
+                    st.count('seq:impl!=spec')
+                run.disagree(Disagreement(cji, impl, mv, sv, what='select-sequence',
+                                          site="select__comma_operator / select__simple_map_operator / select__child_path / select_with_focus"))
+                continue
+            for v, tok in toks.items():
+                if v != '3.0':
+                    st.count('seq:parser-agree-checked')
+                    r = seq_select(it, tok, i)
+                    if r != impl:
+                        run.disagree(Disagreement(dict(cji, parser=v), r, mv, sv, what=f'select-sequence-parser-{v}-vs-3.0',
+                                                  site='XPath2+ parsers'))
+            st.count('seq:evaluate-path-checked')
+            r = seq_select(it, toks['3.1'], i, evaluate=True)
+            if r != impl:
+                run.disagree(Disagreement(dict(cji, parser='3.1', api='token.evaluate'), r, mv, sv, what='select-sequence-evaluate-vs-select',
+                                          site='evaluate__comma_operator / XPathToken.evaluate'))
+
+
+def seq_correspond(run: Run) -> None:
+    rng = run.rng
+    cases = []
+    ntrees = run.scale(110, 700)
+    for t in range(ntrees):
+        tree, pre, post = gen_tree(rng, max_depth=6, max_elems=9)
+        lib, mode = COMBOS[t % len(COMBOS)]
+        if t < 2 * len(SEQ_CORPUS):
+            cases.append({'tree': tree, 'pre': pre, 'post': post, 'sexpr': SEQ_CORPUS[t % len(SEQ_CORPUS)], 'lib': lib, 'mode': mode,
+                          'ctxseed': t})
+        for k in range(4):
+            cases.append({'tree': tree, 'pre': pre, 'post': post, 'sexpr': gen_sexpr(rng, rng.choice([1, 2, 2, 3]), top=True),
+                          'lib': lib, 'mode': mode, 'ctxseed': rng.randrange(1 << 30)})
+    run.stats.rule = (run.stats.rule or '') + (
+        " + (phase 5) sequence expressions over the same trees: `(l, r)`, `l ! r`, `(l)/step`, `(l)[pred]`, `l/number` nested to depth 3 "
+        "over bare reverse/forward steps, paths, unions, position(), last(), count(), integer literals x <= 9 context nodes "
+        "(histogram keys seq:*)")
+    for i in range(0, len(cases), 400):
+        seq_compare(run, cases[i:i + 400])
+    run.log(f'sequence operators: {len(cases)} cases, {len(run.disagreements)} disagreements')
 
 
 # ===================================================================== search / shrink
@@ -1619,8 +1861,71 @@ def inner_is_step(e):
     return e[0] == 's'
 
 
+def sexpr_variants(s):
+    """smaller sequence expressions: an operand instead of the operator, a simple leaf instead of a leaf,
+    the same recursively in one operand (ill-typed candidates are rejected by the driver: sty=none)"""
+    k = s[0]
+    out = []
+    if k == 'b':
+        for leaf in (['c'], ['s', 'child', 'any', True], ['s', 'descendant', 'any', False], ['pos']):
+            if s[1] != leaf and len(json.dumps(leaf)) < len(json.dumps(s[1])):
+                out.append(['b', leaf])
+        return out
+    out.append(s[1])
+    if k not in ('ssl', 'sf', 'sn'):
+        out.append(s[2])
+    for v in sexpr_variants(s[1]):
+        out.append([k, v, s[2]])
+    if k == 'ssl':
+        if s[2] != ['s', 'child', 'any', True]:
+            out.append([k, s[1], ['s', 'child', 'any', True]])
+    elif k == 'sn':
+        if s[2] != ['pos']:
+            out.append([k, s[1], ['pos']])
+    elif k == 'sf':
+        for q in (['n', 1], ['n', 2], ['last']):
+            if len(json.dumps(q)) < len(json.dumps(s[2])):
+                out.append([k, s[1], q])
+    else:
+        for v in sexpr_variants(s[2]):
+            out.append([k, s[1], v])
+    return out
+
+
+def shrink_seq(d: Disagreement) -> Disagreement:
+    best = d
+    for _ in range(25):
+        c = best.case
+        cands = [dict(c, tree=tv) for tv in tree_variants(c['tree'])]
+        cands += [dict(c, sexpr=v) for v in sexpr_variants(c['sexpr'])]
+        if c['pre'] or c['post']:
+            cands.append(dict(c, pre=[], post=[]))
+        if not cands:
+            break
+        sub = Run(PROP, 'quick', 0)
+        for x in cands:
+            x.pop('ctx', None)
+            x['ctxseed'] = -1
+        try:
+            seq_compare(sub, cands[:300])
+        except Exception:
+            break
+        hits = [x for x in sub.disagreements if x.kind == 'violation' and x.what == 'select-sequence' and x.tags == best.tags]
+        if not hits:
+            break
+        hits.sort(key=lambda x: (tree_size(x.case['tree']) + len(json.dumps(x.case['sexpr']))))
+        if (tree_size(hits[0].case['tree']) + len(json.dumps(hits[0].case['sexpr']))
+                >= tree_size(c['tree']) + len(json.dumps(c['sexpr']))) and best is not d:
+            break
+        best = hits[0]
+    return best
+
+
 def shrink(d: Disagreement) -> Disagreement:
     case = d.case
+    if isinstance(case, dict) and 'tree' in case and 'sexpr' in case and d.what == 'select-sequence' and d.kind == 'violation':
+        # (a disagreement tagged with a listed finding is not shrunk: its witness is kernel-checked in Lean)
+        return d if d.tags else shrink_seq(d)
     if not isinstance(case, dict) or 'tree' not in case or d.what != 'select-nodes':
         return d
     best = d
@@ -1812,7 +2117,9 @@ def body(run: Run) -> int:
                          'node identity maps (Python object identity of elements, unique text / attribute values)',
                          'EPV/Spec/XPath1Paths.lean as the reading of XPath 1.0 section 2 (cross-validated against libxml2 on '
                          'document-rooted lxml trees, namespace axis excluded)']
-    run.assumptions += ['document order = XPathNode.position order (property C02)',
+    run.assumptions += ["sequence operators (phase 5): ',' always written parenthesised, '!' operands node-valued on the left; "
+                        "items are nodes or non-negative integers (position(), last(), count(), integer literals)",
+                        'document order = XPathNode.position order (property C02)',
                         'CPython sorted()/list.sort() return the sorted permutation',
                         'Element root without fragment flag: the dummy document is a virtual root that is not the parent of '
                         'the root element (elementpath API semantics, not W3C)',
@@ -1820,7 +2127,7 @@ def body(run: Run) -> int:
     run.stats.extra['method_table'] = translate_methods(run)
     run.trusted_base.append('translator harness/c01.py::translate_methods (function-object identity of the token methods of the '
                             'four parser classes, printed as a Lean table)')
-    run.prove(['EPV.Props.C01', 'EPV.Props.C01Methods'], ['EPV.Spec.XPath1Paths', 'EPV.Model.AxesTree', 'EPV.Model.AxesState', 'EPV.Model.AxesEvalState',
+    run.prove(['EPV.Props.C01', 'EPV.Props.C01Methods', 'EPV.Props.C01SeqOps'], ['EPV.Spec.AxesSeqOps', 'EPV.Model.AxesSeqOps', 'EPV.Spec.XPath1Paths', 'EPV.Model.AxesTree', 'EPV.Model.AxesState', 'EPV.Model.AxesEvalState',
                                        'EPV.Model.AxesEvaluate', 'EPV.Proto'])
     try:
         if getattr(run, 'replay', None):
@@ -1831,7 +2138,10 @@ def body(run: Run) -> int:
                 case = dict(case)
                 if 'ctx' in case and not isinstance(case['ctx'], list):
                     case['ctx'] = [case['ctx']]
-                compare(run, [case])
+                if 'sexpr' in case:
+                    seq_compare(run, [case])
+                else:
+                    compare(run, [case])
         else:
             correspond(run)
     except DriverError as e:
